@@ -6,8 +6,9 @@ C18 (part 2) — model of `pkg/trait/electricpb/modepb`: `ActiveAt`, `MagnitudeA
 A mode is `(optional start time, segments)`; the other `ElectricMode` fields (id, title, voltage,
 normal…) are carried along unchanged by `proto.Clone` in `Cut`/`Shift` and left unset by `Sum`, and
 do not influence any time or magnitude, so they are not modelled.  Instants (`time.Time`) are
-integer nanoseconds on one absolute timeline; `t.Sub(st)` is integer subtraction (the harness keeps
-all instants within a few seconds of each other, far from the saturation of `time.Duration`).
+integer nanoseconds on one absolute timeline; `t.Sub(st)` is integer subtraction here — `Mode64.lean`
+repeats the operations with the SATURATING `time.Time.Sub` and 64-bit durations (what the driver runs;
+the harness also places instants more than 2^63 ns apart) and `PropsSat` relates the two.
 `modepb.Sum` finds the earliest/latest start time with "the first start time seen seeds both
 bounds" (`stCount == 1 ||`, after `fix:` 7872cfb): `Option` in `startsLoop`.  Before that commit the code
 tested `earliest.IsZero()` / `latest.IsZero()` for "not set yet", which misreads a start time AT the zero
